@@ -1,6 +1,6 @@
 SPECIFICATION Spec
 CONSTANTS
-  Defects = {}
+  Defects = {"NoMaxCheck"}
   Bases <- Tiny_Bases
   Contexts <- Tiny_Contexts
   CtxOk <- All_CtxOk
@@ -9,6 +9,5 @@ CONSTANTS
   NameClasses <- C_Name
   Pairs = FALSE
   CutDevs = FALSE
-CONSTRAINT Emit
-INVARIANTS InvRoundTrip InvRejects InvEnd InvConsume InvAlloc
+INVARIANTS InvAlloc
 CHECK_DEADLOCK FALSE
